@@ -165,6 +165,14 @@ class LibsModel:
             return const(None)
         if qual == 'itertools.pairwise':
             return AV(ty='pairwise', of=args[0], deps=d)
+        if qual == 'itertools.chain.from_iterable' and args:
+            inner = self.iter_item(interp, st, args[0], None, None)
+            el = self.iter_item(interp, st, inner, None, None) if inner is not None else None
+            return AV(ty='generator', elem=el, deps=d, maybe_empty=True)
+        if qual == 'itertools.chain':
+            els = [self.iter_item(interp, st, a, None, None) for a in args]
+            els = [e for e in els if e is not None]
+            return AV(ty='generator', elem=join_all(els) if els else None, deps=d, maybe_empty=True)
         if qual == 'itertools.compress':
             el = self.iter_item(interp, st, args[0], None, None)
             return AV(ty='generator', elem=el, deps=d)
@@ -979,3 +987,19 @@ class LibsModel:
                     cols = dict(row.cols)
                     cols[cval(key)] = col.w(idx=('SITE', False) + tuple(col.idx[2:]))
                     st.env[left.value.id] = row.w(cols=cols)
+            return
+        # start = row['col']; start != -1 : the same refinement through a local that holds the field
+        if isinstance(left, ast.Name) and lv is not None and rv is not None and lv.row_var and lv.col and (
+                (has_const(rv) and cval(rv) == -1) or rv.nosite_marker or rv.gname == 'gemdat.transitions.NOSITE'):
+            o = type(op)
+            clean = (o is ast.NotEq and branch) or (o is ast.Eq and not branch)
+            row = st.env.get(lv.row_var)
+            if clean and row is not None and row.ty == 'Row' and row.cols and lv.col in row.cols:
+                col = row.cols[lv.col]
+                if col.idx is not None and col.idx[0] == 'SITE':
+                    cols = dict(row.cols)
+                    cols[lv.col] = col.w(idx=('SITE', False) + tuple(col.idx[2:]))
+                    st.env[lv.row_var] = row.w(cols=cols)
+            cur = st.env.get(left.id)
+            if clean and cur is not None and cur.idx is not None and cur.idx[0] == 'SITE':
+                st.env[left.id] = cur.w(idx=('SITE', False) + tuple(cur.idx[2:]))
